@@ -256,8 +256,17 @@ class Input(ContextManager["Input"]):
                     current_bytes,
                     getpreferredencoding(),
                     keynames=self.keynames,
-                    full=len(self.unprocessed_bytes) == 0,
                 )
+                if e is None and not self.unprocessed_bytes:
+                    # the rest of this keypress may have been cut off by the read size
+                    self._nonblocking_read()
+                    if not self.unprocessed_bytes:
+                        e = events.get_key(
+                            current_bytes,
+                            getpreferredencoding(),
+                            keynames=self.keynames,
+                            full=True,
+                        )
                 if e is not None:
                     return e
             if current_bytes:  # incomplete keys shouldn't happen
@@ -291,9 +300,6 @@ class Input(ContextManager["Input"]):
             time_until_check = timeout
 
         # try to find an already pressed key from prev input
-        if 0 < len(self.unprocessed_bytes) < events.MAX_KEYPRESS_SIZE:
-            # what is left may be the start of a keypress cut by the read size
-            self._nonblocking_read()
         e = find_key()
         if e is not None:
             return e
